@@ -380,8 +380,13 @@ class PythonToIrCompiler:
             assert var.lvalue
             lhs = self.builder.emit_load(var.value, var.ty)
             rhs = self.gen_expr(statement.value)
-            op = self.binop_map[type(statement.op)]
-            value = self.emit(ir.Binop(lhs, op, rhs, "augassign", var.ty))
+            if isinstance(statement.op, ast.FloorDiv):
+                value = self.gen_floor_div(lhs, rhs, var.ty)
+            else:
+                op = self.binop_map[type(statement.op)]
+                value = self.emit(
+                    ir.Binop(lhs, op, rhs, "augassign", var.ty)
+                )
             self.emit(ir.Store(value, var.value))
         else:  # pragma: no cover
             self.not_impl(statement)
@@ -498,12 +503,33 @@ class PythonToIrCompiler:
         # TODO: assume type of a?
         ty = a.ty
         op_typ = type(expr.op)
+        if op_typ is ast.FloorDiv:
+            return self.gen_floor_div(a, b, ty)
         if op_typ in self.binop_map:
             op = self.binop_map[op_typ]
         else:
             self.not_impl(expr)
         value = self.builder.emit_binop(a, op, b, ty)
         return value
+
+    def gen_floor_div(self, a, b, ty):
+        """Compile 'a // b'.
+
+        The IR division truncates towards zero, python rounds down.
+        """
+        emit_binop = self.builder.emit_binop
+        q = emit_binop(a, "/", b, ty)
+        if ty.is_integer:
+            # Subtract one when the remainder is not zero and its sign
+            # differs from the sign of b. Both masks are 0 or -1:
+            r = emit_binop(a, "-", emit_binop(q, "*", b, ty), ty)
+            zero = self.builder.emit_const(0, ty)
+            sign_bit = self.builder.emit_const(ty.bits - 1, ty)
+            not_zero = emit_binop(r, "|", emit_binop(zero, "-", r, ty), ty)
+            not_zero = emit_binop(not_zero, ">>", sign_bit, ty)
+            differs = emit_binop(emit_binop(r, "^", b, ty), ">>", sign_bit, ty)
+            q = emit_binop(q, "+", emit_binop(differs, "&", not_zero, ty), ty)
+        return q
 
     def gen_call(self, expr):
         """Compile call-expression."""
